@@ -49,31 +49,31 @@ func NewAdditionalProperties(ruleValue bytes.Bytes) *AdditionalProperties {
 
 	txt := ruleValue.Unquote()
 	txtStr := txt.String()
+
+	// The AST node keeps the kind of token the value is written with: "false"
+	// in quotes is a string, null without quotes is a null.
+	switch g := json.Guess(ruleValue); {
+	case g.IsBoolean():
+		c.astNode.TokenType = jschema.TokenTypeBoolean
+	case g.IsNull():
+		c.astNode.TokenType = jschema.TokenTypeNull
+	default:
+		c.astNode.TokenType = jschema.TokenTypeString
+	}
+	c.astNode.Value = txtStr
+
 	switch {
 	case txt.OneOf("any", "true"):
-		if txt.String() == "true" {
-			c.astNode.TokenType = jschema.TokenTypeBoolean
-			c.astNode.Value = "true"
-		} else {
-			c.astNode.TokenType = jschema.TokenTypeString
-			c.astNode.Value = txtStr
-		}
 		c.mode = AdditionalPropertiesCanBeAny
 
-	case txt.String() == "false":
-		c.astNode.TokenType = jschema.TokenTypeBoolean
-		c.astNode.Value = "false"
+	case txtStr == "false":
 		c.mode = AdditionalPropertiesNotAllowed
 
 	case txt.IsUserTypeName():
-		c.astNode.TokenType = jschema.TokenTypeString
-		c.astNode.Value = txtStr
 		c.mode = AdditionalPropertiesMustBeUserType
 		c.typeName = txt
 
 	case jschema.IsValidType(txtStr):
-		c.astNode.TokenType = jschema.TokenTypeString
-		c.astNode.Value = txtStr
 		c.mode = AdditionalPropertiesMustBeSchemaType
 		c.schemaType = jschema.SchemaType(txtStr)
 
